@@ -375,7 +375,9 @@ def r_addref(doc, op):
 
 
 def _pick_col(doc, op, **kw):
-  t = _tables(doc, op['a'])
+  # Column-level schema operations target ordinary tables: a summary table's own columns (group-by copies,
+  # `group`, `count`) are managed by the engine and the client only offers formula columns there.
+  t = _tables(doc, op['a'], include_summary=False)
   if not t: return None, None
   cols = _cols(doc, t['id'], **kw)
   if not cols: return t, None
@@ -408,6 +410,8 @@ def r_modformula(doc, op):
   t = _tables(doc, op['a'])
   if not t: return None
   cols = _cols(doc, t['id'], formula_only=True) or _cols(doc, t['id'])
+  if t['summarySourceTable']:
+    cols = [c for c in cols if c['isFormula'] and c['colId'] not in ('group', 'count') and not c['summarySourceCol']]
   if not cols: return None
   c = cols[int(op['b']) % len(cols)]
   return ['ModifyColumn', t['tableId'], c['colId'], {'formula': formula_text(doc, t['id'], op['f'], self_col=c['colId'], max_ref=c['id'])}]
@@ -423,7 +427,7 @@ def r_toggle(doc, op):
 
 
 def r_rmtable(doc, op):
-  t = _tables(doc, op['a'])
+  t = _tables(doc, op['a'], include_summary=False)
   if not t: return None
   return ['RemoveTable', t['tableId']]
 
@@ -553,7 +557,7 @@ def r_meta_rmcol(doc, op):
 
 
 def r_meta_rmtable(doc, op):
-  t = _tables(doc, op['a'])
+  t = _tables(doc, op['a'], include_summary=False)
   if not t: return None
   return ['RemoveRecord', '_grist_Tables', t['id']]
 
@@ -806,7 +810,7 @@ PROFILES = {
   # several schema steps in ONE bundle: removal/conversion followed by renames (undo must use the right names)
   'combo': {
     'rmcol': 6, 'rencol': 8, 'rentable': 8, 'modtype': 5, 'toggle': 3, 'rmtable': 2, 'meta_col': 4, 'meta_table': 3,
-    'addfcol': 5, 'add': 4, 'update': 3, 'remove': 2, 'summary': 2, 'meta_rmcol': 2, 'addcol': 2, 'rawtitle': 2,
+    'addfcol': 5, 'add': 4, 'update': 3, 'remove': 2, 'meta_rmcol': 2, 'addcol': 2, 'rawtitle': 2,
   },
   # data edits under reference-following formulas
   'refdata': {'revive': 1, 'update': 22, 'add': 6, 'remove': 5, 'addfcol': 9, 'addref': 5, 'modformula': 2, 'reverse': 1, 'modtype': 1},
@@ -829,8 +833,26 @@ def any_op(profile='general'):
   return st.sampled_from(kinds).flatmap(op_strategy)
 
 
+RECORD_KINDS = ('add', 'update', 'remove', 'replace', 'bad')
+
+
+def follow_op(profile):
+  w = PROFILES[profile]
+  kinds = []
+  for k in RECORD_KINDS:
+    kinds.extend([k] * max(1, w.get(k, 1)))
+  return st.sampled_from(kinds).flatmap(op_strategy)
+
+
 def bundle(profile='general', max_ops=2):
-  return st.lists(any_op(profile), min_size=1, max_size=max_ops)
+  """A bundle = one operation of any kind, optionally followed by record operations (or a deliberately invalid
+  request). Selectors of every op are resolved against the document as it is BEFORE the bundle, so a second
+  schema operation would often name things the first one just replaced - not something a client sends.
+  The 'combo' profile (several schema steps in one bundle, as in test_undo_rename) is the exception."""
+  if profile == 'combo' or max_ops <= 1:
+    return st.lists(any_op(profile), min_size=1, max_size=max_ops)
+  return st.tuples(any_op(profile), st.lists(follow_op(profile), min_size=0, max_size=max_ops - 1)).map(
+    lambda t: [t[0]] + t[1])
 
 
 # A deterministic, generated "seed document" prefix so histories start from something interesting.
